@@ -17,11 +17,11 @@ Definition ref_init : ref := mkref 12 0 MMain 0.
 Definition ref_main (r : ref) (ln : N) (line : str) : ref * list (N * str * tres * option str) :=
   match line_class line with
   | Some (LTest ok num name dir) =>
-      let n := match num with Some ds => digits_val ds | None => r_last r + 1 end in
+      let n := line_number (r_last r) num in
       (mkref (r_version r) ln MAfterTest n,
        [(n, strip name, spec_status ok (dir_of dir), spec_explanation dir)])
   | Some (LVersion ds) =>
-      (mkref (if ln =? 1 then digits_val ds else r_version r) ln MMain (r_last r), [])
+      (mkref (if (ln =? 1) && negb (too_long ds) then digits_val ds else r_version r) ln MMain (r_last r), [])
   | _ => (mkref (r_version r) ln MMain (r_last r), [])
   end.
 
@@ -67,17 +67,17 @@ Proof.
   pose proof (main_line_frame _ _ _ _ H) as [L _].
   apply main_line_spec in H. unfold ref_main.
   destruct (line_class l) as [[ok num name dir|ds dir|m|ds|]|].
-  - destruct T as [T [T1 [_ T2]]]. rewrite <- Hl in T, T1. split; [|exact T].
+  - destruct T as [T [T1 [_ [T2 _]]]]. rewrite <- Hl in T, T1. split; [|exact T].
     destruct H as [n [_ [-> _]]]. unfold sim. simpl. repeat split; auto.
     destruct (late_now s1); simpl; auto.
   - destruct T as [T [T1 _]]. split; [|exact T]. unfold sim. simpl.
     destruct (cur_plan s1).
     + destruct H as [-> _]. auto.
-    + destruct H as [p [errs [-> _]]]. simpl. auto.
+    + destruct (too_long ds); [destruct H as [-> _]; auto|]. destruct H as [p [errs [-> _]]]. simpl. auto.
   - destruct T as [T [T1 _]]. split; [|exact T]. destruct H as [-> _]. unfold sim. simpl. auto.
   - destruct T as [T [T1 _]]. split; [|exact T]. unfold sim. simpl.
     destruct (N.eqb_spec (lineno s1) 1) as [E|E]; simpl in H.
-    + destruct H as [-> _]. simpl. auto.
+    + destruct (too_long ds); destruct H as [-> _]; simpl; auto.
     + destruct H as [-> _]. auto.
   - destruct T as [T [T1 _]]. split; [|exact T]. destruct H as [-> _]. unfold sim. simpl. auto.
   - destruct T as [T [T1 _]]. split; [|exact T]. destruct H as [-> _]. unfold sim. simpl. auto.
@@ -242,25 +242,31 @@ Theorem second_plan_reported_all l1 x l2 y l3 d1 r1 d2 r2 evs :
   swallowed (ref_run ref_init l1) x = false ->
   swallowed (ref_run ref_init (l1 ++ x :: l2)) y = false ->
   line_class x = Some (LPlan d1 r1) -> line_class y = Some (LPlan d2 r2) ->
-  parse (l1 ++ x :: l2 ++ y :: l3) = Ok evs -> In (EError KPlan2) evs.
+  parse (l1 ++ x :: l2 ++ y :: l3) = Ok evs ->
+  In (EError KPlan2) evs \/ (too_long d1 = true /\ In (EError KBig) evs).
 Proof.
   intros Hsx Hsy Hx Hy H. apply parse_run in H. destruct H as [s [e [e2 [R ->]]]].
-  (* focus on y first: the whole prefix l1 ++ x :: l2 runs to some state *)
   assert (E : l1 ++ x :: l2 ++ y :: l3 = (l1 ++ x :: l2) ++ y :: l3) by (rewrite <- app_assoc; reflexivity).
   rewrite E in R.
   destruct (visible_focus _ _ _ _ _ R Hsy) as [sa [ea [s1 [pre [sb [eb [ec [Ra [C [_ [Hm [_ ->]]]]]]]]]]]].
-  (* inside the prefix, x is looked at and leaves a plan behind *)
-  destruct (visible_focus _ _ _ _ _ Ra Hsx) as [sa' [ea' [s1' [pre' [sb' [eb' [ec' [_ [_ [_ [Hm' [Rc _]]]]]]]]]]]].
-  assert (Hpb : cur_plan sb' <> None).
-  { apply main_line_spec in Hm'. rewrite Hx in Hm'. destruct (cur_plan s1') eqn:E1.
-    - destruct Hm' as [-> _]. congruence.
-    - destruct Hm' as [p [errs [-> _]]]. simpl. discriminate. }
-  destruct (run_lines_frame _ _ _ _ Rc) as [_ Pc].
-  assert (Hpa : cur_plan s1 <> None).
-  { unfold ctr in C. inversion C as [[C1 C2 C3 C4 C5 C6 C7]]. rewrite C3, (Pc Hpb). exact Hpb. }
-  apply main_line_spec in Hm. rewrite Hy in Hm. destruct (cur_plan s1); [|congruence].
-  destruct Hm as [_ ->].
-  apply in_or_app. left. apply in_or_app. right. apply in_or_app. left. apply in_or_app. right. left. reflexivity.
+  destruct (visible_focus _ _ _ _ _ Ra Hsx) as [sa' [ea' [s1' [pre' [sb' [eb' [ec' [_ [_ [_ [Hm' [Rc ->]]]]]]]]]]]].
+  apply main_line_spec in Hm'. rewrite Hx in Hm'.
+  assert (Hcase : cur_plan sb' <> None \/ (too_long d1 = true /\ In (EError KBig) eb')).
+  { destruct (cur_plan s1') eqn:E1.
+    - destruct Hm' as [-> _]. left. congruence.
+    - destruct (too_long d1).
+      + destruct Hm' as [_ ->]. right. split; [reflexivity|left; reflexivity].
+      + destruct Hm' as [p [errs [-> _]]]. left. simpl. discriminate. }
+  destruct Hcase as [Hpb|[TL HB]].
+  - left. destruct (run_lines_frame _ _ _ _ Rc) as [_ Pc].
+    assert (Hpa : cur_plan s1 <> None).
+    { unfold ctr in C. inversion C as [[C1 C2 C3 C4 C5 C6 C7]]. rewrite C3, (Pc Hpb). exact Hpb. }
+    apply main_line_spec in Hm. rewrite Hy in Hm. destruct (cur_plan s1); [|congruence].
+    destruct Hm as [_ ->].
+    apply in_or_app. left. apply in_or_app. right. apply in_or_app. left. apply in_or_app. right. left. reflexivity.
+  - right. split; [exact TL|].
+    apply in_or_app. left. apply in_or_app. left. apply in_or_app. right. apply in_or_app. left.
+    apply in_or_app. right. exact HB.
 Qed.
 
 (* a version line anywhere but on the first line produces an error event (every stream); on the
@@ -269,8 +275,9 @@ Theorem version_line_all l1 x l2 ds evs :
   swallowed (ref_run ref_init l1) x = false -> line_class x = Some (LVersion ds) ->
   parse (l1 ++ x :: l2) = Ok evs ->
   (l1 <> [] -> In (EError KVerPos) evs) /\
-  (l1 = [] -> digits_val ds < 13 -> In (EError KVerLow) evs) /\
-  (l1 = [] -> 13 <= digits_val ds -> In (EVersion (digits_val ds)) evs).
+  (l1 = [] -> too_long ds = true -> In (EError KBig) evs) /\
+  (l1 = [] -> too_long ds = false -> digits_val ds < 13 -> In (EError KVerLow) evs) /\
+  (l1 = [] -> too_long ds = false -> 13 <= digits_val ds -> In (EVersion (digits_val ds)) evs).
 Proof.
   intros Hsw Hc H. apply parse_run in H. destruct H as [s [e [e2 [R ->]]]].
   destruct (visible_focus _ _ _ _ _ R Hsw) as [sa [ea [s1 [pre [sb [eb [ec [_ [_ [L [Hm [_ ->]]]]]]]]]]]].
@@ -280,10 +287,13 @@ Proof.
     apply in_or_app. right. exact Hz. }
   destruct (N.eqb_spec (lineno s1) 1) as [E|E]; simpl in Hm.
   - assert (l1 = []) by (destruct l1; [reflexivity|simpl length in L; lia]).
-    destruct Hm as [_ [_ ->]]. split; [congruence|].
-    destruct (N.ltb_spec (digits_val ds) 13); split; intros; try lia; apply IN; left; reflexivity.
+    split; [congruence|].
+    destruct (too_long ds).
+    + destruct Hm as [_ ->]. repeat split; intros; try discriminate. apply IN. left. reflexivity.
+    + destruct Hm as [_ ->]. split; [intros; discriminate|].
+      destruct (N.ltb_spec (digits_val ds) 13); split; intros; try lia; apply IN; left; reflexivity.
   - destruct Hm as [_ ->]. assert (l1 <> []) by (intros ->; simpl in L; lia).
-    split; [intros _; apply IN; left; reflexivity|]. split; congruence.
+    split; [intros _; apply IN; left; reflexivity|]. repeat split; congruence.
 Qed.
 
 (* the guard is about the reference reading only: a Bail out! inside a YAML block is swallowed,
